@@ -1,46 +1,72 @@
-//! K-core::memory - page slice ranges (C06/C13/C14/C15): `rom_page_data_mut`, `ram_page_data_mut`
-//! and `ram_page_data` return exactly the 16 KiB of the requested page.
-use crate::zx::memory::{RamType, RomType, ZXMemory, PAGE_SIZE};
+//! K-core::memory - page slice ranges (C06/C13/C14/C15): `ram_page_data`, `ram_page_data_mut` and
+//! `rom_page_data_mut` return exactly the 16 KiB of the requested page. A slice is contiguous, so
+//! its range is pinned by its length and by where its first and last byte live: a byte stored
+//! through the mutable slice of page p at offset 0 / 16383 is what the CPU reads at the first /
+//! last address of bank p (through the real memory map) and appears in no other page.
+//! Pages and the two offsets are enumerated concretely (symbolic indices into the 128 KiB vector
+//! exhaust memory); the stored value is symbolic.
+use crate::zx::memory::{Page, RamType, RomType, ZXMemory, PAGE_SIZE};
 
-fn mem(k128: bool) -> ZXMemory {
-    if k128 {
-        ZXMemory::new(RomType::K32, RamType::K128)
-    } else {
-        ZXMemory::new(RomType::K16, RamType::K48)
-    }
-}
-
-#[kani::proof]
-#[kani::unwind(3)]
-fn page_slices() {
-    let k128: bool = kani::any();
-    let mut m = mem(k128);
+fn check(k128: bool) {
+    let mut m = if k128 { ZXMemory::new(RomType::K32, RamType::K128) } else { ZXMemory::new(RomType::K16, RamType::K48) };
     let ram_pages: u8 = if k128 { 8 } else { 3 };
     let rom_pages: u8 = if k128 { 2 } else { 1 };
-    let page: u8 = kani::any();
-    let off: usize = kani::any();
-    kani::assume(off < PAGE_SIZE);
     let v: u8 = kani::any();
-    if page < ram_pages {
-        let base = m.ram_page_data(0).as_ptr() as usize;
-        {
-            let s = m.ram_page_data(page);
-            kani::assert(s.len() == PAGE_SIZE, "ram_page_data: 16 KiB");
-            kani::assert(s.as_ptr() as usize == base + page as usize * PAGE_SIZE, "ram_page_data: starts at page*16K");
-        }
+    kani::assume(v != 0);
+    let mut page = 0u8;
+    while page < ram_pages {
+        kani::assert(m.ram_page_data(page).len() == PAGE_SIZE, "ram_page_data: 16 KiB");
         {
             let s = m.ram_page_data_mut(page);
             kani::assert(s.len() == PAGE_SIZE, "ram_page_data_mut: 16 KiB");
-            kani::assert(s.as_ptr() as usize == base + page as usize * PAGE_SIZE, "ram_page_data_mut: starts at page*16K");
-            s[off] = v;
+            s[0] = v;
+            s[PAGE_SIZE - 1] = v;
         }
-        kani::assert(m.ram_page_data(page)[off] == v, "ram_page_data_mut: stores land in the bank");
+        let mut p2 = 0u8;
+        while p2 < ram_pages {
+            let s = m.ram_page_data(p2);
+            let exp = if p2 == page { v } else { 0 };
+            kani::assert(s[0] == exp && s[PAGE_SIZE - 1] == exp && s[1] == 0 && s[PAGE_SIZE - 2] == 0,
+                "page accessors address exactly the requested bank");
+            p2 += 1;
+        }
+        m.remap(3, Page::Ram(page));
+        kani::assert(m.read(0xC000) == v && m.read(0xFFFF) == v && m.read(0xC001) == 0,
+            "a RAM page slice is the CPU-visible bank");
+        {
+            let s = m.ram_page_data_mut(page);
+            s[0] = 0;
+            s[PAGE_SIZE - 1] = 0;
+        }
+        page += 1;
     }
-    if page < rom_pages {
-        let s = m.rom_page_data_mut(page);
-        kani::assert(s.len() == PAGE_SIZE, "rom_page_data_mut: 16 KiB");
-        s[off] = v;
-        // ROM page p is what the CPU reads at 0x0000.. when Rom(p) is mapped (128K: remap)
+    let mut page = 0u8;
+    while page < rom_pages {
+        {
+            let s = m.rom_page_data_mut(page);
+            kani::assert(s.len() == PAGE_SIZE, "rom_page_data_mut: 16 KiB");
+            s[0] = v;
+            s[PAGE_SIZE - 1] = v;
+        }
+        m.remap(0, Page::Rom(page));
+        kani::assert(m.read(0x0000) == v && m.read(0x3FFF) == v && m.read(0x0001) == 0, "a ROM page slice is the CPU-visible ROM page");
+        if k128 {
+            m.remap(0, Page::Rom(1 - page));
+            kani::assert(m.read(0x0000) == 0 && m.read(0x3FFF) == 0, "... and not the other ROM page");
+        }
+        {
+            let s = m.rom_page_data_mut(page);
+            s[0] = 0;
+            s[PAGE_SIZE - 1] = 0;
+        }
+        page += 1;
     }
-    kani::cover!(page < ram_pages);
+    kani::cover!(true);
+}
+
+#[kani::proof]
+#[kani::unwind(10)]
+fn page_slices() {
+    check(false);
+    check(true);
 }
